@@ -290,6 +290,7 @@ def selftest(ctx, pid):
         d = ctx.path("neg_" + name.replace(":", "_"))
         os.makedirs(d, exist_ok=True)
         shutil.copy(os.path.join(SPEC, "ConnMgr.tla"), d)
+        shutil.copy(os.path.join(SPEC, "ConnCaps.tla"), d)
         open(os.path.join(d, "ConnMgrMC.tla"), "w").write(src.replace(a, b))
         cfg = write_cfg(ctx, "neg_%s.cfg" % name.replace(":", "_"), dict(TWO if name.startswith("two-transports") else BASE, Limits="<- LimNone" if name.startswith(("third", "two-transports")) else "<- LimSmall",
                                                                          MaxCid=2 if name.startswith("two-transports") else 3), ["SPECIFICATION Spec"] + MC_INV)
@@ -297,6 +298,37 @@ def selftest(ctx, pid):
         viol = "is violated" in r["out"]
         log("selftest negative %-40s -> %s" % (name, "violation found" if viol else "NO VIOLATION"))
         ok &= viol
+    if pid == "C06":
+        # the refinement check must notice an abstraction that does not describe the bound model ...
+        caps = open(os.path.join(SPEC, "ConnCaps.tla")).read()
+        a = "  /\\ limIn' = limIn \\ {c} /\\ limOut' = limOut \\ {c}\n  /\\ UNCHANGED <<cpeer, cdir, MaxIn, MaxOut>>"
+        d = ctx.path("neg_caps_refinement")
+        os.makedirs(d, exist_ok=True)
+        for f in ("ConnMgr.tla", "ConnMgrMC.tla"):
+            shutil.copy(os.path.join(SPEC, f), d)
+        if a not in caps:
+            log("selftest negative caps-refinement: pattern not found (spec changed?)")
+            ok = False
+        else:
+            open(os.path.join(d, "ConnCaps.tla"), "w").write(caps.replace(a, a.replace("limOut' = limOut \\ {c}", "limOut' = limOut")))
+            cfg = write_cfg(ctx, "neg_caps_ref.cfg", dict(BASE, Limits="<- LimSmall", MaxCid=2), ["SPECIFICATION Spec", "VIEW View", "CHECK_DEADLOCK FALSE", "PROPERTY CapsRefinement"])
+            r = tlc_mc(ctx, os.path.join(d, "ConnMgrMC.tla"), cfg, workers=4, expect_violation=True, timeout=600)
+            viol = "Action property CapsRefinement is violated" in r["out"]
+            log("selftest negative %-40s -> %s" % ("ConnCaps: close keeps the outgoing slot", "refinement violated" if viol else "NO VIOLATION"))
+            ok &= viol
+        # ... and Apalache must refuse an invariant that is not inductive (the conjunct found by its first counterexample removed)
+        b = "    /\\ (ps[p].k = \"conn\" /\\ ps[p].dial /= CNone => ps[p].sec = CNone)\n"
+        if b not in caps or not shutil.which("apalache-mc"):
+            log("selftest negative non-inductive: skipped (pattern or apalache-mc missing)")
+        else:
+            d2 = ctx.path("neg_caps_ind")
+            os.makedirs(d2, exist_ok=True)
+            open(os.path.join(d2, "ConnCaps.tla"), "w").write(caps.replace(b, ""))
+            rc, out = run(["apalache-mc", "check", "--cinit=ConstInit2x4", "--init=IndInit", "--inv=IndInv", "--length=1",
+                           "--out-dir=" + os.path.join(d2, "out"), os.path.join(d2, "ConnCaps.tla")], timeout=900, cwd=d2)
+            bad = "The outcome is: Error" in out
+            log("selftest negative %-40s -> %s" % ("IndInv without the dial/secondary conjunct", "not inductive (counterexample)" if bad else "ACCEPTED"))
+            ok &= bad
     log("SELFTEST %s" % ("ok" if ok else "FAILED"))
     return 0 if ok else 2
 
